@@ -12,6 +12,9 @@ SEQ = {
  'C04': ("as C02 for error propagation (payload identity through every operator), retry / retry_when / on_error_resume_next over sources whose k-th subscription behaves differently, materialize/dematerialize", '6 C04'),
  'C05': ("as C01 with the unsubscribe monitor: nothing whose emission started after unsubscribe() returned is delivered, second unsubscribe / unsubscribe after terminal is a no-op, is_subscribed() follows the subscription's life; unsubscribe issued at every position, also from inside the subscriber's callback (single-thread part; the cross-thread part is decided with C19's machinery)", '6 C05'),
  'C06': ("as C01 with the teardown monitor: once the subscription ended every instrumented source sees is_subscribed()==false at its next attempt, no subject keeps an observer, endless producers stop", '6 C06'),
+ 'C07': ("single-thread part: as C01 with the verdict monitor (every stimulus returns: no self-deadlock, no exhausted step budget) over every group, plus the re-entrancy matrix (every operator over every subject type x subscriber callbacks that unsubscribe themselves / emit into / subscribe to the subject they are called from); the L1 model predicts each same-thread deadlock through its held-lock stack and the runtime confirms it. The multi-thread part (lock-order deadlocks among up to 4 threads) is being added to this check", '6 C07'),
+ 'C10': ("as C01 with the four subject automata of the statement as L2 (per-observer deliveries per call, hand-over of history to late joiners, registered-observer count after every call), all call sequences over {subscribe_i, unsubscribe_i, next, error, complete}", '6 C10'),
+ 'C13': ("as C01 with the connectable monitor: the source is subscribed only at connect / first subscriber, never twice at a time, released by disconnect / last leaver (source sees is_subscribed()==false), every present subscriber sees the same items, replay hands every subscriber the whole sequence once", '6 C13'),
  'C14': ("as C02 with 2 subscribers of the same Observable value (sequentially over cold sources whose k-th subscription differs, interleaved on hot sources): every subscriber must see the definition's output for its own input, and tap side effects fire for every subscription", '6 C14'),
  'C17': ("as C01 with reference-counted tokens captured by the subscriber's callbacks and by every closure handed to an operator: after the subscription ended and all handles were dropped the tokens must be released; the L1 model predicts the count from an ownership graph derived from the heap", '6 C17'),
 }
